@@ -86,6 +86,16 @@ def generate(tier, seed):
                   steps = pre + block(obs) + [o] + block(obs)
                   cases.append(case("eng", sp, adapter_M(uniq), "-", steps))
                   dist["unbuilt_link"] = dist.get("unbuilt_link", 0) + 1
+              # a grant and its revocation inside the OBSERVED domain while another domain holds the SAME (user, role) pair:
+              # afterwards the observed domain's view is what it was before (the revocation must not be skipped because
+              # "another rule still asserts the link" - that rule belongs to another tenant)
+              for u in SUBS[:2]:
+                  other = others[0]
+                  steps = [A("g", "g", [u, "admin", other])] + block(obs) + ["MK:0", A("g", "g", [u, "admin", obs]), R("g", "g", [u, "admin", obs]), "MK:1"] + block(obs)
+                  cases.append(case("eng", sp, adapter_M([l for l in uniq if l[:4] != ["g", "g", u, "admin"]]), "-", steps))
+                  steps = [A("g", "g", [u, "admin", other])] + block(obs) + ["MK:0", "ar:%s:admin:%s" % (u, enc(obs)), "dr:%s:admin:%s" % (u, enc(obs)), "MK:1"] + block(obs)
+                  cases.append(case("eng", sp, adapter_M([l for l in uniq if l[:4] != ["g", "g", u, "admin"]]), "-", steps))
+                  dist["own_grant_revoke"] = dist.get("own_grant_revoke", 0) + 2
               for _ in range(3):
                   n = rnd.choice([5, 20, 60])
                   steps = block(obs)
